@@ -40,7 +40,7 @@ ASSUMPTIONS = [
 ]
 MIN_EVENTS = {"draw calls executed": {"quick": 1200, "thorough": 40000}, "frames observed at flush boundaries": {"quick": 2500, "thorough": 80000}}
 SHARDS = 16
-PERSONAS = ["other", "kitty-0.32", "kitty-0.25", "konsole", "wezterm", "iterm2"]
+PERSONAS = ["other", "kitty-0.32", "kitty-0.25", "konsole", "wezterm", "iterm2", "kitty-0.25.2"]
 
 
 def plan(tier, seed):
